@@ -98,6 +98,10 @@ GUARD_IGNORE_MOVES = "ignore_moves"
 # additions and kind changes, so finish_renames fails with NoSuchFile (similar: ReadError when a
 # directory and a file trade kinds across the span)
 GUARD_SPAN = "multi_revision_span"
+# a directory with children is renamed (or swapped) and something below it is renamed, swapped
+# or changes kind in the same upload: the inner change is executed with the OLD path after the
+# directory has already been moved away (NoSuchFile)
+GUARDED["dir_move_with_inner_change"] = {"rename_full_dirs": False, "swap_full_dirs": False}
 
 
 def generate(rng, tier):
@@ -243,6 +247,45 @@ def change_labels(mh, revs):
     return labels
 
 
+def category(mh, revs, patterns):
+    """The reported defect class an upload span falls into (first match), else '-'."""
+    labels = set()
+    moved_ignored = False
+    dir_move = False
+    for r in revs:
+        spec = mh.revs[r]
+        tree = mh.tree(spec["parents"][0]) if spec["parents"] else {}
+        for a in spec["actions"]:
+            if a[0] == "add" and a[3] == LINK or a[0] == "retype" and (a[2] == LINK or tree[a[1]][1] == LINK) or a[0] == "modify" and tree[a[1]][1] == LINK:
+                labels.add("symlink")
+            if a[0] in ("rename", "swap"):
+                if patterns and (ignored(a[1], patterns) != ignored(a[2], patterns) or (a[0] == "swap" and (ignored(a[1], patterns) or ignored(a[2], patterns)))):
+                    moved_ignored = True
+                for q in (a[1], a[2]) if a[0] == "swap" else (a[1],):
+                    if any(x != q and histsim.inside(q, x) for x in tree):
+                        dir_move = True
+                if a[0] == "swap":
+                    labels.add("swap")
+                if any(tree[q][1] == LINK for q in ((a[1], a[2]) if a[0] == "swap" else (a[1],))):
+                    labels.add("symlink")
+            if a[0] == "retype":
+                labels.add("kind-change")
+            tree = histsim.apply_actions(tree, [a])
+    if "symlink" in labels:
+        return "symlink"
+    if moved_ignored:
+        return "ignored-path-moved"
+    if len(revs) > 1:
+        return "multi-revision-span"
+    if dir_move:
+        return "dir-move-with-inner-change"
+    if "kind-change" in labels:
+        return "kind-change"
+    if "swap" in labels:
+        return "swap"
+    return "-"
+
+
 def culprit(mh, revs, got, want):
     """Labels of the actions (in the uploaded span) that touched a differing path."""
     bad = [p for p in sorted(set(got) | set(want)) if got.get(p) != want.get(p)]
@@ -320,7 +363,7 @@ def execute(sim, plan):
             got = {p: v for p, v in got.items() if p in want}
         if got != want:
             lab = culprit(mh, span, got, want)
-            sim.fail("remote_differs", ["remote_differs", what, sigtail or lab], f"{what} of {rid} (span {span}, ignore {patterns}): remote differs from the tree: {diff_states(got, want)}\nactions: {[mh.revs[r]['actions'] for r in span][-3:]}"[:3500])
+            sim.fail("remote_differs", ["remote_differs", what, category(mh, span, patterns) + (":" + sigtail if sigtail else "")], f"{what} of {rid} [{lab}] (span {span}, ignore {patterns}): remote differs from the tree: {diff_states(got, want)}\nactions: {[mh.revs[r]['actions'] for r in span][-3:]}"[:3500])
         m = marker(root)
         if m != rid:
             sim.fail("marker", ["marker", what], f"{what} of {rid}: marker file holds {m!r}")
@@ -356,7 +399,7 @@ def execute(sim, plan):
                 sim.restart_main()
             if not fired:
                 if err is not None:
-                    sim.fail("upload_raises", ["upload_raises", mode, norm_exc(err), "+".join(sorted(labels & RISKY)) or "-"], f"{mode} upload of {rid} (span {span}) failed without any fault: {type(err).__name__}: {err}\nactions: {[mh.revs[r]['actions'] for r in span][-3:]}"[:3000])
+                    sim.fail("upload_raises", ["upload_raises", mode, norm_exc(err), category(mh, span, patterns)], f"{mode} upload of {rid} (span {span}) failed without any fault: {type(err).__name__}: {err}\nactions: {[mh.revs[r]['actions'] for r in span][-3:]}"[:3000])
                 judge(rid, mode)
                 sim.probe("fault_beyond_end")
             else:
@@ -389,7 +432,7 @@ def execute(sim, plan):
                         sim.probe("rerun_incremental_raised")
                         sim.event("rerun-raised", type(e).__name__)
                     if rerun_ok:
-                        judge(rid, "rerun-incremental", sigtail=kindsig + ":" + ("+".join(sorted(labels & RISKY)) or "plain"))
+                        judge(rid, "rerun-incremental", sigtail=kindsig)
                         sim.probe("rerun_incremental_ok")
                 if not rerun_ok:
                     try:
@@ -414,7 +457,7 @@ def execute(sim, plan):
         except Exception as e:  # noqa: BLE001
             import traceback
 
-            sim.fail("upload_raises", ["upload_raises", mode, norm_exc(e), "+".join(sorted(labels & RISKY)) or "-"], f"{mode} upload of {rid} (span {span}, ignore {patterns}) failed: {type(e).__name__}: {e}\nactions: {[mh.revs[r]['actions'] for r in span][-3:]}\n{traceback.format_exc()[-1500:]}"[:4000])
+            sim.fail("upload_raises", ["upload_raises", mode, norm_exc(e), category(mh, span, patterns)], f"{mode} upload of {rid} (span {span}, ignore {patterns}) failed: {type(e).__name__}: {e}\nactions: {[mh.revs[r]['actions'] for r in span][-3:]}\n{traceback.format_exc()[-1500:]}"[:4000])
         judge(rid, mode)
         if labels & (RISKY | {"remove-file", "remove-symlink", "remove-directory", "chmod", "rename-file", "rename-symlink", "rename-directory"}) and mode == "incremental":
             interesting = True
